@@ -18,7 +18,26 @@ delivery records before and after the real `step` (no source hook, nothing in /r
 import numpy as np
 from fractions import Fraction
 
-STATES = {'sir': ['susceptible', 'infected', 'recovered'], 'sis': ['susceptible', 'infected']}
+STATES = {'sir': ['susceptible', 'infected', 'recovered'], 'sis': ['susceptible', 'infected'],
+          'syphilis': ['susceptible', 'infected', 'naive', 'sus_not_naive', 'exposed', 'primary', 'secondary', 'latent_temp',
+                       'latent_long', 'tertiary', 'congenital']}
+
+
+def diseases_of(simc):
+    return [simc['disease']] + ([simc['disease2']] if simc.get('disease2') else [])
+
+
+def all_states(simc):
+    """ [(disease, state)] in a fixed order; the model numbers state arrays 10*disease_index + state_index """
+    return [(d, st) for d in diseases_of(simc) for st in STATES[d]]
+
+
+def state_code(simc, d, st):
+    return 10 * diseases_of(simc).index(d) + STATES[d].index(st)
+
+
+def flag_key(d, st):
+    return f'{d}.{st}'
 
 
 def frac(x):
@@ -49,6 +68,8 @@ def _elig_rules():
         susceptible=lambda sim: dis(sim).susceptible,
         infected=lambda sim: dis(sim).infected,
         nobody=lambda sim: sim.people.age > 500,
+        uids_nobody=lambda sim: ss.uids(),
+        adults=lambda sim: sim.people.age >= 15,
         unvaccinated=lambda sim: ~sim.interventions['target'].vaccinated,
         unscreened=lambda sim: ~sim.interventions['target'].screened,
         uids_young=lambda sim: (sim.people.age < 25).uids,
@@ -57,6 +78,11 @@ def _elig_rules():
         screen_pos=lambda sim: ss.uids(sim.interventions['scr'].outcomes['positive']),
         screen_pos_alive=lambda sim: ss.uids(sim.interventions['scr'].outcomes['positive']).intersect(sim.people.auids),
     )
+
+
+def n_used(ppl):
+    """ number of uids ever created (array entries beyond it are uninitialised) """
+    return int(ppl.uid.len_used)
 
 
 def eval_elig(case_elig, sim):
@@ -68,7 +94,7 @@ def eval_elig(case_elig, sim):
         return 'all', []
     r = fn(sim)
     if isinstance(r, ss.BoolArr):
-        n = int(sim.people.uid.raw.shape[0])
+        n = n_used(sim.people)
         return 'mask', np.nonzero(np.asarray(r.raw[:n]))[0].tolist()
     if isinstance(r, ss.uids):
         return 'uids', [int(u) for u in r]
@@ -101,7 +127,7 @@ def gen_sim(rng, disease, dt=None):
     if dt == 0.1: nyears = rng.choice([4, 6])
     return dict(n_agents=rng.choice([40, 60, 90]), start=2000, dur=nyears, dt=dt, rand_seed=rng.randint(0, 9999),
                 disease=disease, beta=rng.choice([0.2, 0.5, 1.5]), init_prev=rng.choice([0.05, 0.2, 0.4]),
-                deaths=rng.choice([None, None, 30, 80]))
+                deaths=rng.choice([None, None, 30, 80]), births=rng.choice([None, None, None, 40]))
 
 
 def gen_routine(rng, simc, prob_vector_ok=True):
@@ -160,28 +186,42 @@ def gen_campaign(rng, simc):
     return dict(years=years, prob=prob)
 
 
-def gen_dx(rng, disease):
-    hier = rng.choice([['positive', 'negative'], ['positive', 'inadequate', 'negative']])
+def gen_dx(rng, simc):
+    """ rows = [(disease, state, [prob per result])]: the complete cross product diseases x states, in table order """
+    ds = diseases_of(simc)
+    hier = rng.choice([['positive', 'negative'], ['positive', 'inadequate', 'negative'], ['positive', 'weak', 'inadequate', 'negative']])
+    states = ['susceptible', 'infected'] if len(ds) > 1 or rng.random() < 0.7 else STATES[ds[0]]
     rows = []
-    for st in STATES[disease][:2] if rng.random() < 0.7 else STATES[disease]:
-        if st == 'susceptible':
-            p = [0.0] * len(hier); p[-1] = 1.0
-            if rng.random() < 0.3: p = [0.1] + [0.0] * (len(hier) - 2) + [0.9]
-        else:
-            pp = rng.choice([1.0, 1.0, 0.8, 0.5])
-            p = [pp] + [0.0] * (len(hier) - 2) + [round(1 - pp, 6)]
-        rows.append((st, p))
+    for d in ds:
+        for st in states:
+            m = len(hier)
+            if st == 'susceptible':
+                p = [0.0] * m; p[-1] = 1.0
+                if rng.random() < 0.3: p = [0.1] + [0.0] * (m - 2) + [0.9]
+            else:
+                r = rng.random()
+                if r < 0.4: p = [1.0] + [0.0] * (m - 1)
+                elif r < 0.7 or m == 2:
+                    pp = rng.choice([0.8, 0.5]); p = [pp] + [0.0] * (m - 2) + [round(1 - pp, 6)]
+                else:
+                    p = [0.5, 0.3] + [0.0] * (m - 3) + [0.2]          # a middle result with positive probability
+            rows.append((d, st, p))
     return dict(hierarchy=hier, rows=rows)
 
 
-def gen_tx(rng, disease):
+def gen_tx(rng, simc):
+    """ rows = [(disease, state, efficacy, post_state)]: the cross product diseases x states (table order) """
+    ds = diseases_of(simc)
+    states = ['infected'] if rng.random() < 0.5 else ['susceptible', 'infected']
+    if len(ds) == 1 and ds[0] == 'sir' and rng.random() < 0.3: states = states + ['recovered']
     rows = []
-    if rng.random() < 0.4:
-        rows.append(('susceptible', 0.0, 'susceptible'))
-    post = 'susceptible' if disease == 'sis' else rng.choice(['recovered', 'susceptible'])
-    rows.append(('infected', rng.choice([1.0, 1.0, 0.0, 0.6, 0.9]), post))
-    if disease == 'sir' and rng.random() < 0.3:
-        rows.append(('recovered', rng.choice([1.0, 0.5]), 'susceptible'))
+    for d in ds:
+        for st in states:
+            if st == 'susceptible': rows.append((d, st, 0.0, 'susceptible'))
+            elif st == 'infected':
+                post = 'susceptible' if d == 'sis' else rng.choice(['recovered', 'susceptible'])
+                rows.append((d, st, rng.choice([1.0, 1.0, 0.0, 0.6, 0.9]), post))
+            else: rows.append((d, st, rng.choice([1.0, 0.5]), 'susceptible'))
     return dict(rows=rows)
 
 
@@ -189,49 +229,134 @@ def gen_case(rng, kind=None):
     kind = kind or rng.choice(['vx', 'vx', 'vx', 'screen', 'screen', 'triage', 'treat', 'treat'])
     disease = 'sir' if kind == 'vx' else rng.choice(['sis', 'sir'])
     simc = gen_sim(rng, disease)
-    case = dict(kind=kind, sim=simc)
+    if rng.random() < 0.3:
+        simc['disease2'] = 'sis' if disease == 'sir' else 'sir'
+    case = dict(kind=kind, sim=simc, own_dt=1)
     if kind != 'treat':
         case['delivery'] = rng.choice(['routine', 'routine', 'campaign'])
         case['sched'] = gen_routine(rng, simc) if case['delivery'] == 'routine' else gen_campaign(rng, simc)
+    if rng.random() < 0.25 and simc['dt'] in (1.0, 0.5, 0.25):
+        case['own_dt'] = rng.choice([2, 2, 3])       # the intervention runs on its own, coarser timeline
     if kind == 'vx':
-        case['elig'] = rng.choice(['none', 'age_gt_30', 'female', 'susceptible', 'unvaccinated', 'uids_young', 'uids_male_old', 'nobody'])
-        vk = rng.choice(['leaky', 'leaky', 'aon', 'inert'])
+        case['elig'] = rng.choice(['none', 'age_gt_30', 'female', 'susceptible', 'unvaccinated', 'uids_young', 'uids_male_old', 'nobody', 'uids_nobody', 'adults'])
+        vk = rng.choice(['leaky', 'leaky', 'aon', 'aon', 'inert'])
         case['vaccine'] = dict(kind=vk, efficacy=rng.choice([1.0, 1.0, 0.9, 0.5, 0.0]))
     elif kind in ('screen', 'triage'):
-        case['elig'] = rng.choice(['none', 'age_gt_30', 'female', 'infected', 'uids_young', 'uids_infected'] + (['unscreened'] if kind == 'screen' else []))
+        case['elig'] = rng.choice(['none', 'age_gt_30', 'female', 'infected', 'uids_young', 'uids_infected', 'nobody', 'uids_nobody'] + (['unscreened'] if kind == 'screen' else []))
         if kind == 'triage' and case['elig'] == 'none': case['elig'] = 'female'
-        case['dx'] = gen_dx(rng, disease)
+        case['dx'] = gen_dx(rng, simc)
     else:
         case['delivery'] = 'none'
-        case['tx'] = gen_tx(rng, disease)
+        case['tx'] = gen_tx(rng, simc)
         case['capacity'] = rng.choice([None, 0, 1, 3, 5, 8])
         case['treat_prob'] = rng.choice([1.0, 1.0, 0.9, 0.5])
         if rng.random() < 0.5:
             # a screening stage feeds the treatment (as in tests/test_syphilis.py)
+            d0 = simc['disease']
             case['pipeline'] = dict(sched=dict(start_year=2001, end_year=rng.choice([2003, 2004]), prob=[rng.choice([0.5, 1.0])], annual_prob=False),
-                                    dx=dict(hierarchy=['positive', 'negative'], rows=[('susceptible', [0.0, 1.0]), ('infected', [1.0, 0.0])]))
+                                    dx=dict(hierarchy=['positive', 'negative'], rows=[(d, st, p) for d in diseases_of(simc)
+                                                                                      for st, p in (('susceptible', [0.0, 1.0]), ('infected', [1.0, 0.0]))]))
             case['elig'] = rng.choice(['screen_pos_alive', 'screen_pos_alive', 'screen_pos'])
             if simc['dt'] in (2.0, 0.4): simc['dt'] = 1.0
+            case['own_dt'] = 1
         else:
-            case['elig'] = rng.choice(['infected', 'uids_infected', 'none', 'female'])
+            case['elig'] = rng.choice(['infected', 'uids_infected', 'none', 'female', 'nobody', 'uids_nobody'])
     return case
+
+
+def syph_tables():
+    """ the shipped syphilis products (data/products/syph_dx.csv, syph_tx.csv) as case tables, blocks in the products' loop order """
+    import starsim as ss
+    dxp = ss.diseases.syphilis.load_syph_dx()['rpr']; txp = ss.diseases.syphilis.load_syph_tx()['bpg']
+    hier = list(dxp.hierarchy)
+    dx_rows = []
+    for d in dxp.diseases:
+        for st in dxp.health_states:
+            sub = dxp.df[(dxp.df.state == st) & (dxp.df.disease == d)]
+            dx_rows.append((str(d), str(st), [float(sub[sub.result == r].probability.values[0]) for r in hier]))
+    tx_rows = []
+    for d in txp.diseases:
+        for st in txp.health_states:
+            sub = txp.df[(txp.df.state == st) & (txp.df.disease == d)]
+            tx_rows.append((str(d), str(st), float(sub.efficacy.values[0]), str(sub.post_state.values[0])))
+    return dict(hierarchy=hier, rows=dx_rows), dict(rows=tx_rows)
+
+
+def fixed_cases():
+    """ Scenario families that every run exercises (next to the random cases): interventions on their own timeline with a
+        window that does not start at the sim start, products covering two diseases that share state names, results
+        hierarchies with a middle result, empty eligibility, capacity 0 with a non-empty queue, births, all-or-nothing
+        vaccine, a very small step. """
+    def sim(dt=1.0, dur=12, disease='sir', **kw):
+        d = dict(n_agents=60, start=2000, dur=dur, dt=dt, rand_seed=11, disease=disease, beta=0.5, init_prev=0.3, deaths=None, births=None)
+        d.update(kw); return d
+    leaky1 = dict(kind='leaky', efficacy=1.0)
+    out = []
+    out.append(dict(kind='vx', delivery='routine', own_dt=2, elig='none', vaccine=leaky1, sim=sim(),
+                    sched=dict(start_year=2004, end_year=2008, prob=[0.5], annual_prob=False)))
+    out.append(dict(kind='vx', delivery='routine', own_dt=2, elig='adults', vaccine=leaky1, sim=sim(dt=0.5, dur=10),
+                    sched=dict(years=[2003, 2004, 2005], prob=[0.2, 0.9, 0.4], annual_prob=True)))
+    out.append(dict(kind='vx', delivery='campaign', own_dt=2, elig='none', vaccine=dict(kind='aon', efficacy=0.5), sim=sim(dur=12),
+                    sched=dict(years=[2006.0, 2010.0], prob=[1.0, 0.5])))
+    dx2 = dict(hierarchy=['positive', 'inadequate', 'negative'],
+               rows=[('sis', 'susceptible', [0.0, 0.0, 1.0]), ('sis', 'infected', [0.5, 0.3, 0.2]),
+                     ('sir', 'susceptible', [0.0, 0.1, 0.9]), ('sir', 'infected', [0.0, 1.0, 0.0])])
+    out.append(dict(kind='screen', delivery='routine', own_dt=2, elig='female', dx=dx2, sim=sim(disease='sis', disease2='sir', deaths=40),
+                    sched=dict(start_year=2002, end_year=2006, prob=[0.8], annual_prob=False)))
+    # ... and with a late window: BaseScreening writes results[...][sim.ti] into its own (shorter) result arrays
+    out.append(dict(kind='screen', delivery='routine', own_dt=2, elig='none', dx=dx2, sim=sim(disease='sis', disease2='sir'),
+                    sched=dict(start_year=2008, end_year=2010, prob=[0.8], annual_prob=False)))
+    out.append(dict(kind='screen', delivery='routine', own_dt=1, elig='uids_nobody', dx=dx2, sim=sim(disease='sis', disease2='sir'),
+                    sched=dict(start_year=2002, end_year=2004, prob=[1.0], annual_prob=False)))
+    # one Tx for two diseases sharing the state name `infected`, with different rows
+    out.append(dict(kind='treat', delivery='none', own_dt=1, elig='none', capacity=None, treat_prob=1.0, sim=sim(disease='sir', disease2='sis', dur=6),
+                    tx=dict(rows=[('sir', 'infected', 1.0, 'recovered'), ('sis', 'infected', 0.0, 'susceptible')])))
+    out.append(dict(kind='treat', delivery='none', own_dt=1, elig='uids_infected', capacity=4, treat_prob=1.0, sim=sim(disease='sis', disease2='sir', dur=6, deaths=40),
+                    tx=dict(rows=[('sis', 'infected', 0.0, 'susceptible'), ('sir', 'infected', 1.0, 'susceptible')])))
+    out.append(dict(kind='treat', delivery='none', own_dt=1, elig='infected', capacity=0, treat_prob=1.0, sim=sim(disease='sis', dur=5),
+                    tx=dict(rows=[('sis', 'infected', 1.0, 'susceptible')])))
+    out.append(dict(kind='treat', delivery='none', own_dt=2, elig='nobody', capacity=3, treat_prob=1.0, sim=sim(disease='sis', dur=6),
+                    tx=dict(rows=[('sis', 'infected', 1.0, 'susceptible')])))
+    out.append(dict(kind='vx', delivery='routine', own_dt=1, elig='nobody', vaccine=leaky1, sim=sim(dur=6),
+                    sched=dict(start_year=2001, end_year=2003, prob=[1.0], annual_prob=False)))
+    out.append(dict(kind='vx', delivery='routine', own_dt=1, elig='none', vaccine=leaky1, sim=sim(dur=8, births=60, deaths=40),
+                    sched=dict(start_year=2002, end_year=2006, prob=[0.6], annual_prob=True)))
+    out.append(dict(kind='vx', delivery='routine', own_dt=1, elig='none', vaccine=dict(kind='aon', efficacy=0.5), sim=sim(dt=0.5, dur=6),
+                    sched=dict(start_year=2001, end_year=2002, prob=[0.7], annual_prob=True)))
+    out.append(dict(kind='triage', delivery='routine', own_dt=1, elig='infected', dx=dict(hierarchy=['positive', 'negative'],
+                    rows=[('sis', 'susceptible', [0.0, 1.0]), ('sis', 'infected', [1.0, 0.0])]), sim=sim(disease='sis', dur=5),
+                    sched=dict(start_year=2001, end_year=2003, prob=[1.0], annual_prob=False)))
+    out.append(dict(kind='screen', delivery='campaign', own_dt=1, elig='none', dx=dict(hierarchy=['positive', 'negative'],
+                    rows=[('sis', 'susceptible', [0.0, 1.0]), ('sis', 'infected', [1.0, 0.0])]), sim=sim(disease='sis', dur=5),
+                    sched=dict(years=[2002.0], prob=[1.0])))
+    # the shipped syphilis interventions themselves: syph_screening ('rpr') and the screening -> syph_treatment ('bpg') pipeline
+    sdx, stx = syph_tables()
+    ssim = dict(n_agents=120, start=2000, dur=9, dt=1.0, rand_seed=5, disease='syphilis', beta=0.5, init_prev=0.25, deaths=None, births=None)
+    out.append(dict(kind='screen', syph=True, delivery='routine', own_dt=1, elig='adults', dx=sdx, sim=dict(ssim),
+                    sched=dict(start_year=2002, end_year=2005, prob=[0.8], annual_prob=True)))
+    out.append(dict(kind='treat', syph=True, delivery='none', own_dt=1, elig='screen_pos_alive', capacity=4, treat_prob=0.9, tx=stx, sim=dict(ssim, rand_seed=6),
+                    pipeline=dict(sched=dict(start_year=2002, end_year=2006, prob=[0.9], annual_prob=False), dx=sdx)))
+    # a very small step: the window years are matched with np.isclose (rtol 1e-5 ~ 0.02 years around 2000)
+    out.append(dict(kind='vx', delivery='routine', own_dt=1, elig='none', vaccine=leaky1, sim=sim(dt=0.02, dur=2, n_agents=40, beta=0.2),
+                    sched=dict(start_year=2001, end_year=2001, prob=[1.0], annual_prob=False)))
+    return out
 
 
 # ---------------------------------------------------------------------------
 # building the real objects
 
-def _dx_df(dx, disease):
+def _dx_df(dx):
     import pandas as pd
     recs = []
-    for st, probs in dx['rows']:
+    for d, st, probs in dx['rows']:
         for res, p in zip(dx['hierarchy'], probs):
-            recs.append(dict(name='t', disease=disease, state=st, result=res, probability=p))
+            recs.append(dict(name='t', disease=d, state=st, result=res, probability=p))
     return pd.DataFrame(recs)
 
 
-def _tx_df(tx, disease):
+def _tx_df(tx):
     import pandas as pd
-    return pd.DataFrame([dict(name='tx', disease=disease, state=s, efficacy=e, post_state=p) for s, e, p in tx['rows']])
+    return pd.DataFrame([dict(name='tx', disease=d, state=s, efficacy=e, post_state=p) for d, s, e, p in tx['rows']])
 
 
 def probed(cls, snap):
@@ -248,6 +373,11 @@ def probed(cls, snap):
             post = snap(self, after=True)
             try: ret = sorted(int(u) for u in out)
             except Exception: ret = None
+            if ret is None and 'out' in post and 'queue' in post:
+                # syph_treatment.step returns nothing: the treated are the agents of the outcomes written in this step
+                # (n_tx[ti] says whether anybody was treated)
+                ntx = int(self.results['n_tx'][self.sim.ti]) if 'n_tx' in self.results else None
+                ret = sorted(set(post['out'].get('successful', [])) | set(post['out'].get('unsuccessful', []))) if ntx else []
             log.append(dict(pre=pre, post=post, ret=ret))
             return out
     Probed.__name__ = cls.__name__
@@ -272,14 +402,20 @@ def upcoming_draws(dist, ppl, uids):
 
 
 def make_snap(case):
-    kind = case['kind']; disease = case['sim']['disease']
+    kind = case['kind']; simc = case['sim']
 
     def snap(iv, after=False):
         sim = iv.sim; ppl = sim.people
-        n = int(ppl.uid.raw.shape[0])
-        dis = sim.diseases[0]
-        s = dict(ti=int(sim.ti), active=[int(u) for u in ppl.auids], n=n)
-        s['flags'] = {st: np.nonzero(np.asarray(getattr(dis, st).raw[:n]))[0].tolist() for st in STATES[disease]}
+        n = n_used(ppl)
+        s = dict(ti=int(sim.ti), own_ti=int(iv.ti), active=[int(u) for u in ppl.auids], n=n)
+        s['flags'] = {}
+        for d, st in all_states(simc):
+            dz = sim.diseases[d]
+            if isinstance(getattr(type(dz), st, None), property):      # derived state (e.g. Syphilis.naive): defined on active agents only
+                s['flags'][flag_key(d, st)] = sorted(int(u) for u in getattr(dz, st).uids)
+            else:
+                s['flags'][flag_key(d, st)] = np.nonzero(np.asarray(getattr(dz, st).raw[:n]))[0].tolist()
+        dis = sim.diseases['sir'] if 'sir' in diseases_of(simc) else sim.diseases[0]
         s['rs'] = np.asarray(dis.rel_sus.raw[:n], dtype=float).copy()
         if not after:
             ek, el = eval_elig(case['elig'], sim)
@@ -287,6 +423,7 @@ def make_snap(case):
             us = sorted(set(s['active']) | set(el if ek != 'mask' else []))
             cd = getattr(iv, 'coverage_dist', None)     # CampaignDelivery x BaseTest has none
             s['draws'] = upcoming_draws(cd, ppl, us) if cd is not None else {}
+            s['np_state'] = np.random.get_state()       # sir_vaccine(leaky=False) draws from the global NumPy generator
         if kind == 'vx':
             s['vacc'] = np.nonzero(np.asarray(iv.vaccinated.raw[:n]))[0].tolist()
             s['doses'] = np.asarray(iv.n_doses.raw[:n], dtype=float).copy()
@@ -301,8 +438,15 @@ def make_snap(case):
             s['out'] = {k: sorted(int(u) for u in v) for k, v in iv.outcomes.items()}
             d = iv.product.efficacy_dist
             s['eff_seed'] = int(d.seed); s['eff_ind'] = int(d.ind)
+            s['slots'] = np.asarray(ppl.slot.raw[:n]).copy()
         return s
     return snap
+
+
+def ref_binomial(np_state, q, k):
+    """ the variates np.random.binomial(1, q, k) returns from the given global state (NumPy only) """
+    rs = np.random.RandomState(); rs.set_state(np_state)
+    return [int(x) for x in rs.binomial(1, q, k)] if k else []
 
 
 def eff_draws(seed, ind, ncalls, ppl_slots, uids):
@@ -326,40 +470,59 @@ def build(case):
         Raises whatever the real init raises (ValueError for rejected schedules). """
     import starsim as ss
     rules = _elig_rules()
-    simc = case['sim']; disease = simc['disease']; kind = case['kind']
+    simc = case['sim']; kind = case['kind']
     snap = make_snap(case)
     elig = rules[case['elig']]
+    own = {}
+    if case.get('own_dt', 1) != 1:
+        own = dict(dt=simc['dt'] * case['own_dt'])
     intvs = []
-    if kind == 'vx':
+    syph = bool(case.get('syph'))
+    if syph and kind == 'screen':
+        intvs.append(probed(ss.syph_screening, snap)(name='target', product='rpr', eligibility=elig, **dict(case['sched']), **own))
+    elif syph and kind == 'treat':
+        pl = case['pipeline']
+        intvs.append(ss.syph_screening(name='scr', product='rpr', eligibility=rules['adults'], **dict(pl['sched'])))
+        intvs.append(probed(ss.syph_treatment, snap)(name='target', product='bpg', prob=case['treat_prob'], max_capacity=case['capacity'], eligibility=elig, **own))
+    elif kind == 'vx':
         v = case['vaccine']
         prod = ss.Vx(diseases='sir') if v['kind'] == 'inert' else ss.sir_vaccine(efficacy=v['efficacy'], leaky=(v['kind'] == 'leaky'))
         cls = probed(ss.routine_vx if case['delivery'] == 'routine' else ss.campaign_vx, snap)
         kw = dict(case['sched'])
-        intvs.append(cls(name='target', product=prod, eligibility=elig, **kw))
+        intvs.append(cls(name='target', product=prod, eligibility=elig, **kw, **own))
     elif kind in ('screen', 'triage'):
-        prod = ss.Dx(_dx_df(case['dx'], disease), hierarchy=case['dx']['hierarchy'])
+        prod = ss.Dx(_dx_df(case['dx']), hierarchy=case['dx']['hierarchy'])
         if kind == 'screen':
             base = ss.routine_screening if case['delivery'] == 'routine' else ss.campaign_screening
             base = _screening_class(base)
         else:
             base = ss.routine_triage if case['delivery'] == 'routine' else ss.campaign_triage
         cls = probed(base, snap)
-        intvs.append(cls(name='target', product=prod, eligibility=elig, **dict(case['sched'])))
+        intvs.append(cls(name='target', product=prod, eligibility=elig, **dict(case['sched']), **own))
     else:
         if case.get('pipeline'):
             pl = case['pipeline']
-            scr = _screening_class(ss.routine_screening)(name='scr', product=ss.Dx(_dx_df(pl['dx'], disease), hierarchy=pl['dx']['hierarchy']),
+            scr = _screening_class(ss.routine_screening)(name='scr', product=ss.Dx(_dx_df(pl['dx']), hierarchy=pl['dx']['hierarchy']),
                                                          eligibility=None, **dict(pl['sched']))
             intvs.append(scr)
-        prod = ss.Tx(_tx_df(case['tx'], disease))
+        prod = ss.Tx(_tx_df(case['tx']))
         cls = probed(ss.treat_num, snap)
-        intvs.append(cls(name='target', product=prod, prob=case['treat_prob'], max_capacity=case['capacity'], eligibility=elig))
-    dkw = dict(type=disease, beta=simc['beta'], init_prev=simc['init_prev'])
-    if disease == 'sir': dkw['p_death'] = 0.0
+        intvs.append(cls(name='target', product=prod, prob=case['treat_prob'], max_capacity=case['capacity'], eligibility=elig, **own))
+    dlist = []
+    for d in diseases_of(simc):
+        dkw = dict(type=d, beta=simc['beta'], init_prev=simc['init_prev'])
+        if d == 'sir': dkw['p_death'] = 0.0
+        dlist.append(dkw)
     pars = dict(n_agents=simc['n_agents'], start=simc['start'], dur=simc['dur'], dt=simc['dt'], rand_seed=simc['rand_seed'],
-                diseases=dkw, networks=dict(type='random', n_contacts=4), interventions=intvs, verbose=0)
-    if simc.get('deaths'):
-        pars['demographics'] = [ss.Deaths(death_rate=simc['deaths'])]
+                diseases=dlist, networks=dict(type='random', n_contacts=4), interventions=intvs, verbose=0)
+    if simc['disease'] == 'syphilis':
+        pars['diseases'] = ss.Syphilis(beta={'mf': [simc['beta'], simc['beta'] / 2], 'maternal': [0.99, 0]}, init_prev=simc['init_prev'])
+        pars['networks'] = [ss.MFNet(), ss.MaternalNet()]
+        pars['demographics'] = [ss.Pregnancy(fertility_rate=30), ss.Deaths(death_rate=10)]
+    dem = []
+    if simc.get('births'): dem.append(ss.Births(birth_rate=simc['births']))
+    if simc.get('deaths'): dem.append(ss.Deaths(death_rate=simc['deaths']))
+    if dem: pars['demographics'] = dem
     sim = ss.Sim(**pars)
     sim.init()
     return sim
@@ -397,7 +560,8 @@ def run_case(case):
         res['prob'] = [float(p) for p in np.asarray(iv.prob)]
         if case['delivery'] == 'routine':
             res['start_year'] = float(iv.start_year); res['end_year'] = float(iv.end_year)
-    res['slots'] = np.asarray(sim.people.slot.raw).copy()
+    res['own_dt'] = float(sim.interventions['target'].t.dt)
+    res['own_npts'] = int(sim.interventions['target'].t.npts)
     try:
         sim.run()
     except Exception as e:
